@@ -51,6 +51,12 @@ class Mux(recorded.Module):
             cfgs.append(mc("MCM_2w", workers=8))
         # vacuity guard: without the write lock frames of concurrent writers interleave
         cfgs.append(mc("MCM_nolock", expect="is violated", lock="FALSE", faults="{}", props=""))
+        # the connection table: handles, re-opened ids, repeated Close, Close of the multiplexer
+        tab = ("SPECIFICATION TSpecM\nCONSTANTS Ids = {1, 2} MaxH = %d MaxSent = 3 Guarded = %s\n"
+               "INVARIANTS OpenIsRegistered OneOpenPerId NothingOpenAfterClose Isolated\nCHECK_DEADLOCK FALSE\n")
+        cfgs.append(dict(name="MCT_table", module="MuxTable", cfg=tab % (5 if th else 4, "TRUE"), workers=4))
+        cfgs.append(dict(name="MCT_unguarded", module="MuxTable", cfg=tab % (4, "FALSE"), workers=2,
+                         expect_violation="OpenIsRegistered"))
         return cfgs
 
     def prepare(self, prop, tier, sd, sc):
@@ -69,6 +75,18 @@ class Mux(recorded.Module):
                 f.write("\n".join(cases) + "\n")
             g, d = vlib.tlc_counts(out)
             st, tr = d, g
+        # operation sequences on the connection table (Gen_MuxTable)
+        cfg = ("SPECIFICATION GSpec\nCONSTANTS Ids = {1, 2} MaxH = 3 MaxSent = 2 Guarded = TRUE MaxOps = %d\n"
+               "INVARIANTS OpenIsRegistered\nCHECK_DEADLOCK FALSE\n" % (6 if th else 5))
+        rc, out = vlib.run_tlc(sc.sub("gen-muxtable"), "Gen_MuxTable", cfg, workers=4, timeout=1200)
+        if "No error has been found" not in out:
+            raise vlib.ToolFailure("Gen_MuxTable failed:\n" + vlib.tlc_error_excerpt(out))
+        tcases = sorted(set(vlib.tlc_tagged(out, "CASE")))
+        self.files["table"] = sc.path("mux-table.ndjson")
+        with open(self.files["table"], "w") as f:
+            f.write("\n".join(tcases) + "\n")
+        g, d = vlib.tlc_counts(out)
+        st, tr = st + d, tr + g
         n = 600 if th else 120
         self.files["random"] = sc.path("mux-random.ndjson")
         vlib.run_driver(exe, ["mux-gen", "-n", n, "-seed", sd, "-out", self.files["random"], "-big",
@@ -76,7 +94,8 @@ class Mux(recorded.Module):
         return st, tr
 
     def recordings(self, prop, tier, sd):
-        recs = [("random", ["mux", "-in", self.files["random"], "-seed", sd])]
+        recs = [("random", ["mux", "-in", self.files["random"], "-seed", sd]),
+                ("table", ["muxtable", "-in", self.files["table"]], "MuxTable")]
         if "faults" in self.files:
             recs.append(("faults", ["mux", "-in", self.files["faults"], "-seed", sd + 1]))
         return recs
@@ -92,3 +111,10 @@ class Mux(recorded.Module):
 
 def run(prop, tier, replay=None):
     return recorded.run(Mux(), prop, tier, replay, dev=(prop == "MUX"))
+
+
+def _replay_module(self, first_line):
+    return "MuxTable" if '"ops"' in first_line and '"qlen"' not in first_line else None
+
+
+Mux.replay_module = _replay_module
